@@ -35,7 +35,7 @@ Event ==
   \/ E.ev = "respond" /\ Respond
                       /\ reply'.cls = E.cls
                       \* which error a refused request gets is not part of the property
-                      /\ E.cls # "error" => (reply'.status = E.status /\ reply'.reason = E.reason)
+                      /\ (E.cls # "error" => (reply'.status = E.status /\ reply'.reason = E.reason))
                       /\ cached = SetOf(E.cached)
 
 Consume ==
